@@ -21,6 +21,10 @@ ANCHORS = ["tx:limit_fanin", "tx:limit_fanout", "tx:insert_registers", "tx:acycl
 
 def gen(rng, ctx):
     big = ctx.tier == "thorough"
+    if rng.random() < (0.01 if big else 0.002) or (ctx.gen_index == 0 and ctx.index < 4):
+        from rv.gen import libnets
+
+        return {"lib": libnets.pick(rng, ctx.tier) if ctx.gen_index else ["c17", "s27", "c432", "mux_4"][ctx.index % 4], "op": rng.choice(["limit_fanin", "limit_fanout", "insert_registers", "acyclic_unroll"]), "k": rng.randint(2, 4), "stages": rng.randint(1, 3), "seed": rng.getrandbits(32)}
     op = rng.choice(["limit_fanin", "limit_fanin", "limit_fanout", "insert_registers", "acyclic_unroll"])
     ni = rng.randint(2, 6 if not big else 8)
     ng = rng.randint(2, 9 if not big else 14)
@@ -49,7 +53,57 @@ def gen(rng, ctx):
     return {"op": op, "c": cd, "kind": kind, "k": rng.randint(2, 5), "stages": rng.randint(1, 4), "repeat": rng.random() < 0.25, "custom_ff": op == "insert_registers" and rng.random() < 0.35}
 
 
+def check_lib(case, ctx):
+    from rv.gen import libnets
+
+    cg = ctx.cg
+    op, k = case["op"], case["k"]
+    cd = libnets.load(cg, case["lib"])
+    c = G.build(cg, cd, "graph")
+    before = Net.of(c)
+    ctx.count(f"lib:{case['lib']}")
+    ctx.count(f"lib_op:{op}")
+    if op == "insert_registers" and before.bbs:
+        op = "limit_fanout"
+    if op == "acyclic_unroll" and before.bbs:
+        op = "limit_fanin"
+    fn = {"limit_fanin": lambda: cg.tx.limit_fanin(c, k), "limit_fanout": lambda: cg.tx.limit_fanout(c, k), "insert_registers": lambda: cg.tx.insert_registers(c, case["stages"]), "acyclic_unroll": lambda: cg.tx.acyclic_unroll(c)}[op]
+    ok, r = ctx.call(fn)
+    what = f"{op} on {case['lib']}"
+    if not ok:
+        ctx.violation(op + "_raised", f"{what} raised {r!r}\n{getattr(r, '_tb', '')}")
+        return
+    after = Net.of(r)
+    if op == "limit_fanin" and [n for n, t in after.types.items() if t in sim.GATES and len(after.preds[n]) > k]:
+        ctx.violation("limit_fanin_bound", f"{what}: gates with more than {k} inputs remain")
+    if op == "limit_fanout" and [n for n in after.types if len(after.succs[n]) > k]:
+        ctx.violation("limit_fanout_bound", f"{what}: nodes with more than {k} loads remain")
+    if op in ("limit_fanin", "limit_fanout", "acyclic_unroll"):
+        if after.inputs() != before.inputs() or after.outputs != before.outputs:
+            ctx.violation(op + "_io", f"{what}: io changed")
+            return
+        nodes = sorted(before.outputs) if op == "acyclic_unroll" else before.nodes()
+        libnets.compare_sampled(ctx, op, before, after, nodes, case["seed"], what)
+        return
+    # insert_registers: flops made transparent
+    types = dict(after.types)
+    preds = {n: list(p) for n, p in after.preds.items()}
+    for inst in [i for i in after.bbs if i not in before.bbs]:
+        d, q = f"{inst}.d", f"{inst}.q"
+        if len(preds.get(d, [])) != 1 or len(after.succs.get(q, [])) != 1:
+            ctx.violation("insert_registers_wiring", f"{what}: flop {inst} not spliced into a wire")
+            return
+        preds[after.succs[q][0]] = [preds[d][0]]
+        for p_ in after.bbs[inst][1] | after.bbs[inst][2]:
+            types.pop(f"{inst}.{p_}", None)
+            preds.pop(f"{inst}.{p_}", None)
+    ctx.count("lib_registers", len(after.bbs) - len(before.bbs))
+    libnets.compare_sampled(ctx, "insert_registers", before, Net(types, preds, after.outputs), before.nodes(), case["seed"], what, extra_fixed={"clk": 0})
+
+
 def check(case, ctx):
+    if "lib" in case:
+        return check_lib(case, ctx)
     cg = ctx.cg
     op = case["op"]
     cd = case["c"]
